@@ -23,8 +23,10 @@ type Snap struct {
 	V3       map[string][]uint64
 	V4       map[string][]uint64
 	AttrLen  int
-	PrimErr  string // PrimitiveCount panics for some topologies/sizes: recorded, compared
-	Prim     int
+	// AttrLenStable: all attributes have the same length
+	AttrLenStable bool
+	PrimErr       string // PrimitiveCount panics for some topologies/sizes: recorded, compared
+	Prim          int
 }
 
 func bits(f float64) uint64 { return math.Float64bits(f) }
@@ -85,6 +87,38 @@ func Take(m modeling.Mesh) *Snap {
 		s.V4[a] = o
 	}
 	s.AttrLen = m.AttributeLength()
+	// On an ill-formed mesh (attributes of different lengths)
+	// AttributeLength reports the length of whichever attribute Go's map
+	// iteration meets first: not a stable observation.
+	s.AttrLenStable = true
+	for _, mm := range []map[string][]uint64{s.V1, s.V2, s.V3, s.V4} {
+		for _, v := range mm {
+			_ = v
+		}
+	}
+	lens := map[int]bool{}
+	for _, v := range s.V1 {
+		lens[len(v)] = true
+	}
+	for _, v := range s.V2 {
+		lens[len(v)/2] = true
+	}
+	for _, v := range s.V3 {
+		lens[len(v)/3] = true
+	}
+	for _, v := range s.V4 {
+		lens[len(v)/4] = true
+	}
+	if len(lens) > 1 {
+		s.AttrLenStable = false
+		// report a deterministic stand-in (the smallest length)
+		s.AttrLen = -1
+		for l := range lens {
+			if s.AttrLen < 0 || l < s.AttrLen {
+				s.AttrLen = l
+			}
+		}
+	}
 	func() {
 		defer func() {
 			if r := recover(); r != nil {
@@ -175,7 +209,7 @@ func Diff(a, b *Snap) string {
 	if d := diffMap(4, "float4", a.V4, b.V4); d != "" {
 		return d
 	}
-	if a.AttrLen != b.AttrLen {
+	if a.AttrLenStable && b.AttrLenStable && a.AttrLen != b.AttrLen {
 		return fmt.Sprintf("attribute length %d != %d", a.AttrLen, b.AttrLen)
 	}
 	if a.Prim != b.Prim || a.PrimErr != b.PrimErr {
@@ -239,4 +273,32 @@ func AttributeSubset(r, c *Snap) string {
 		}
 	}
 	return ""
+}
+
+// StableAttributeLength is AttributeLength made deterministic: on ill-formed
+// meshes (attributes of different lengths) the library's answer follows Go
+// map order; this returns the smallest attribute length instead.
+func StableAttributeLength(m modeling.Mesh) int {
+	n := -1
+	see := func(l int) {
+		if n < 0 || l < n {
+			n = l
+		}
+	}
+	for _, a := range m.Float1Attributes() {
+		see(m.Float1Attribute(a).Len())
+	}
+	for _, a := range m.Float2Attributes() {
+		see(m.Float2Attribute(a).Len())
+	}
+	for _, a := range m.Float3Attributes() {
+		see(m.Float3Attribute(a).Len())
+	}
+	for _, a := range m.Float4Attributes() {
+		see(m.Float4Attribute(a).Len())
+	}
+	if n < 0 {
+		return 0
+	}
+	return n
 }
